@@ -9,9 +9,10 @@ from .base import Rule, site_construct, site_where, stable_path
 PROP = "C14"
 
 # reviewed exceptions to "no Result of an effectful call is discarded": (caller, callee) -> reason
-DISCARD_OK = {
-    ("wal::manager::WalManager::commit_checkpoint", "wal::storage::SegmentStorage::prune_stale_segments"):
-        "best-effort prune after the snapshot is durable: a stale segment that survives is skipped by version at replay",
+# reviewed discards, by what the discarded call does (not by its name): a call whose only effect is pruning log segments
+DISCARD_OK_EFFECTS = {
+    frozenset(["WAL_PRUNE"]):
+        "best-effort prune of log segments: a stale segment that survives is skipped by version at replay",
 }
 
 # reviewed unwrap/expect sites on extern error types, keyed by the call that produced the Result (not by the
@@ -154,9 +155,10 @@ def rules(ctx, tier):
             tgt = prog.local_target(site)
             callee = tgt.path if tgt is not None else site.path
             key = (stable_path(b), callee)
-            if disc and key in DISCARD_OK:
-                r.note("reviewed discard %s -> %s: %s" % (key[0], key[1], DISCARD_OK[key]))
-                r.ok("reviewed-discard:%s" % callee, b, "reviewed: %s" % DISCARD_OK[key])
+            does = frozenset(sem_set(e for e in ctx.may.site_events(site) if ctx._concrete(e))) if disc else None
+            if disc and does in DISCARD_OK_EFFECTS:
+                r.note("reviewed discard %s -> %s: %s" % (key[0], key[1], DISCARD_OK_EFFECTS[does]))
+                r.ok("reviewed-discard:%s" % "+".join(sorted(does)), b, "reviewed: %s" % DISCARD_OK_EFFECTS[does])
                 continue
             r.check(not disc, "discard:%s" % callee, b,
                     "result of %s at %s is inspected" % (callee, site_where(site)),
@@ -366,6 +368,20 @@ def _unwrap_discharged_in(ctx, b, site):
                 if neg:
                     some_edge = tt if some_edge == ff else ff
                 tests.append((bb, some_edge))
+        elif c[0] == "discr":
+            # `match field.as_ref() { Some(w) .. }` (possibly inside an inlined deciding helper)
+            dpl = c[1]
+            dty = ctx.world._place_ty(b, dpl)
+            if dty is not None and ctx.prog.ty_str(ctx.prog.strip_refs(dty)).startswith("std::option::Option<"):
+                rp = ctx.world._root_place(b, dpl)
+                hit = rp is not None and ctx.world.vfg.node_of_place(b, rp) == node
+                if not hit and not [e for e in dpl["p"] if e != "deref"]:
+                    hit = _derived_from_node(ctx, b, sl0, {"copy": {"l": dpl["l"], "p": []}}, node)
+                if hit:
+                    e = cfgutil.switch_edges(b, bb)
+                    some_edge = e.get(1) if 1 in e else (e["otherwise"] if 0 in e else None)
+                    if some_edge is not None:
+                        tests.append((bb, some_edge))
         elif c[0] == "cmp" and c[1] in ("Eq", "Ne"):
             # `field.as_ref().map(f) == Some(x)`: on the equal edge the field is Some
             e = cfgutil.eq_edges(b, bb)
